@@ -3,9 +3,9 @@
 (* transcription of the library's window code for exhaustive exploration    *)
 (* against the Clip and TextLayout oracles.                                 *)
 (*   window.go  Window.New (size clamping), Window.SetCell (per-level       *)
-(*              bounds check, then delegation to the parent), Fill, Print,  *)
-(*              Println, PrintTruncate, Wrap                                *)
-(*   screen.go  screen.setCell (final bounds check)                         *)
+(*              bounds check, then delegation to the parent), SetStyle,     *)
+(*              Fill, Print, Println, PrintTruncate, Wrap                   *)
+(*   screen.go  screen.setCell, screen.setStyle (final bounds check)        *)
 (* It follows the repaired code: a cell wider than the columns left at a    *)
 (* level is refused, and Print / Wrap start a new row before a cluster that *)
 (* does not fit.  The switches fx = [wide, measure] give the code as it was *)
@@ -18,11 +18,14 @@
 (*                    places and advances by the width of the Unicode       *)
 (*                    tables (item field u) instead of the width the        *)
 (*                    terminal gives the cluster (field w): its measuring   *)
-(*                    loop assigned to a copy.                              *)
+(*                    loop assigned to a copy;                              *)
+(*   style = FALSE    (only read by ISetStyle) SetStyle has no overhang     *)
+(*                    test: it restyles the first column of a wide          *)
+(*                    character whose second column is outside the window.  *)
 EXTENDS Integers, Sequences
 
 None == <<>>
-AllFixed == [wide |-> TRUE, measure |-> TRUE]
+AllFixed == [wide |-> TRUE, measure |-> TRUE, style |-> TRUE]
 
 (* The width SetCell's overhang test sees for a cell stated dw wide that    *)
 (* the terminal shows mw wide.                                              *)
@@ -68,6 +71,32 @@ ISetCell(wins, i, col, row, cw, cols, rows, fx) ==
   ELSE IF fx.wide /\ cw > 1 /\ col + cw > win.w THEN None
   ELSE IF win.par = 0 THEN IScreenSet(col + win.col, row + win.row, cw, cols, rows, fx)
   ELSE ISetCell(wins, win.par, col + win.col, row + win.row, cw, cols, rows, fx)
+
+(* Window.Origin: the screen position of the window's first cell. *)
+RECURSIVE IOrigin(_, _)
+IOrigin(wins, i) ==
+  LET win == wins[i] IN
+  IF win.par = 0 THEN <<win.col, win.row>>
+  ELSE LET o == IOrigin(wins, win.par) IN <<o[1] + win.col, o[2] + win.row>>
+
+(* Window.SetStyle of window i on a screen that holds one character two     *)
+(* cells wide whose first column is the screen cell g (every other cell     *)
+(* holds a narrow one): the screen cell whose style is changed, or None.    *)
+(* The repaired code looks up, at every level, how wide the character in    *)
+(* the addressed cell is and refuses one that overhangs that window.        *)
+RECURSIVE ISetStyle(_, _, _, _, _, _, _, _)
+ISetStyle(wins, i, col, row, g, cols, rows, fx) ==
+  LET win == wins[i]
+      o   == IOrigin(wins, i)
+      cw  == IF <<o[1] + col, o[2] + row>> = g THEN 2 ELSE 1
+  IN IF row >= win.h \/ col >= win.w THEN None
+     ELSE IF row < 0 \/ col < 0 THEN None
+     ELSE IF fx.style /\ cw > 1 /\ col + cw > win.w THEN None
+     ELSE IF win.par = 0
+          THEN LET x == col + win.col
+                   y == row + win.row
+               IN IF x < 0 \/ y < 0 \/ x >= cols \/ y >= rows THEN None ELSE <<x, y>>
+     ELSE ISetStyle(wins, win.par, col + win.col, row + win.row, g, cols, rows, fx)
 
 (* Window.Fill: the set of screen cells written. *)
 IFill(wins, i, cols, rows, fx) ==
